@@ -30,11 +30,11 @@ macro_rules! parts_obs {
             }
         }
         $out.push(ob(5, &flat));
-        $out.push(ob(3, &sum.iter().map(|x| $flbits(*x)).collect::<Vec<_>>()));
+        $out.push(ob(3, &sum.channels().map(|x| $flbits(x)).collect::<Vec<_>>()));
         $out.push(ob(4, &[$det.window_frames() as u64]));
-        $out.push(ob(2, &$det.current().iter().map(|x| $flbits(*x)).collect::<Vec<_>>()));
+        $out.push(ob(2, &$det.current().channels().map(|x| $flbits(x)).collect::<Vec<_>>()));
         let fr = $src.next();
-        $out.push(ob(2, &$det.next(fr).iter().map(|x| $flbits(*x)).collect::<Vec<_>>()));
+        $out.push(ob(2, &$det.next(fr).channels().map(|x| $flbits(x)).collect::<Vec<_>>()));
     };
 }
 
@@ -64,7 +64,7 @@ macro_rules! adriver {
                         r = c;
                     }
                     let o = if sq { r.next_squared() } else { r.next() };
-                    out.push(ob(2, &o.iter().map(|x| $flbits(*x)).collect::<Vec<_>>()));
+                    out.push(ob(2, &o.channels().map(|x| $flbits(x)).collect::<Vec<_>>()));
                     out.push(ob(3, &[r.is_exhausted() as u64]));
                 }
                 out.push(ob(4, &[cnt.get() as u64]));
@@ -88,7 +88,7 @@ macro_rules! adriver {
                     r = c;
                 }
                 let o = if sq { r.next_squared() } else { r.next() };
-                out.push(ob(2, &o.iter().map(|x| $flbits(*x)).collect::<Vec<_>>()));
+                out.push(ob(2, &o.channels().map(|x| $flbits(x)).collect::<Vec<_>>()));
             }
             out.push(ob(4, &[cnt.get() as u64]));
             let (mut src, mut det) = r.into_parts();
@@ -98,6 +98,63 @@ macro_rules! adriver {
         }
     };
 }
+macro_rules! adriver0 {
+    ($name:ident, $S:ty, $Fl:ty, $samp:ident, $flbits:ident) => {
+        fn $name(n: usize, sq: bool, k: usize, fin: bool, cl: i128, vals: &[i128]) -> Vec<String> {
+            // the bare sample type as a mono frame
+            let frames: Vec<$S> = vals.iter().map(|v| $samp(*v)).collect();
+            let cnt = Cell::new(0usize);
+            if fin {
+                let src = signal::from_iter(frames.iter().cloned().inspect(|_| cnt.set(cnt.get() + 1)));
+                let ring = Fixed::from(vec![<$Fl>::default(); n].into_boxed_slice());
+                let mut r = src.rms(ring);
+                let mut out = Vec::new();
+                out.push(ob(3, &[r.is_exhausted() as u64]));
+                for j in 0..k {
+                    if j as i128 == cl {
+                        let c = r.clone();
+                        r = c;
+                    }
+                    let o = if sq { r.next_squared() } else { r.next() };
+                    out.push(ob(2, &o.channels().map(|x| $flbits(x)).collect::<Vec<_>>()));
+                    out.push(ob(3, &[r.is_exhausted() as u64]));
+                }
+                out.push(ob(4, &[cnt.get() as u64]));
+                let (mut src, mut det) = r.into_parts();
+                parts_obs!(out, src, det, $flbits);
+                out.push(ob(3, &[src.is_exhausted() as u64]));
+                out.push(ob(4, &[cnt.get() as u64]));
+                return out;
+            }
+            let src = signal::gen_mut(|| {
+                let i = cnt.get();
+                cnt.set(i + 1);
+                if i < frames.len() { frames[i] } else { <$S as dasp_sample::Sample>::EQUILIBRIUM }
+            });
+            let ring = Fixed::from(vec![<$Fl>::default(); n].into_boxed_slice());
+            let mut r = src.rms(ring);
+            let mut out = Vec::new();
+            for j in 0..k {
+                if j as i128 == cl {
+                    let c = r.clone();
+                    r = c;
+                }
+                let o = if sq { r.next_squared() } else { r.next() };
+                out.push(ob(2, &o.channels().map(|x| $flbits(x)).collect::<Vec<_>>()));
+            }
+            out.push(ob(4, &[cnt.get() as u64]));
+            let (mut src, mut det) = r.into_parts();
+            parts_obs!(out, src, det, $flbits);
+            out.push(ob(4, &[cnt.get() as u64]));
+            out
+        }
+    };
+}
+
+adriver0!(a_f32_0, f32, f32, s_f32, bits32);
+adriver0!(a_f64_0, f64, f64, s_f64, bits64);
+adriver0!(a_i16_0, i16, f32, s_i16, bits32);
+adriver0!(a_u8_0, u8, f32, s_u8, bits32);
 adriver!(a_f32_1, f32, f32, 1, s_f32, bits32);
 adriver!(a_f32_2, f32, f32, 2, s_f32, bits32);
 adriver!(a_f32_3, f32, f32, 3, s_f32, bits32);
@@ -123,8 +180,9 @@ fn run_a(line: &str) -> String {
     let cl = if h.len() > 7 { h[7] } else { -1 };
     assert!(h[1] == build_nostd(), "case is for the other build configuration");
     let vals = nums(parts[1]);
-    assert!(vals.len() % chans == 0);
+    assert!(vals.len() % chans.max(1) == 0);
     let f = match (fmt, chans) {
+        (0, 0) => a_f32_0, (1, 0) => a_f64_0, (2, 0) => a_i16_0, (3, 0) => a_u8_0,
         (0, 1) => a_f32_1, (0, 2) => a_f32_2, (0, 3) => a_f32_3, (0, 4) => a_f32_4,
         (1, 1) => a_f64_1, (1, 2) => a_f64_2, (1, 3) => a_f64_3, (1, 4) => a_f64_4,
         (2, 1) => a_i16_1, (2, 2) => a_i16_2, (2, 3) => a_i16_3, (2, 4) => a_i16_4,
